@@ -161,7 +161,8 @@ impl Scenario for C17 {
         let (close_result, close_invoke_ns) = match close {
             Some(x) => x,
             None => {
-                rep.inconclusive = Some("open failed".into());
+                let e = res.hist.conn.iter().find_map(|c| if let ConnRec::Open { result: Err(e), .. } = c { Some(e.clone()) } else { None });
+                rep.violate("setup", "open-failed", format!("cooperative handshake failed: {:?}", e));
                 return rep;
             }
         };
